@@ -507,4 +507,261 @@ theorem closedUnder_sound (p : List (Prim L)) (S : List (Head L)) (hS : closedUn
     | step x c hs y _ hstep hy ih => exact (key x ih c).2 hs hstep y hy
   exact ⟨mem, fun c => (key h mem c).1⟩
 
+/-! ### soundness of state annotations -/
+
+theorem chain_drop (R : L → St L → Prop) (ex : St L) : ∀ (ap : List (APrim L)) (i : Nat),
+    Chain R ap ex → Chain R (ap.drop i) ex := by
+  intro ap
+  induction ap with
+  | nil => intro i _; simp [Chain]
+  | cons a r ih =>
+    intro i h
+    cases i with
+    | zero => simpa using h
+    | succ i => simp only [List.drop_succ_cons]; exact ih i (by obtain ⟨e, st⟩ := a; exact h.2)
+
+/-- the head's state is the annotation of its position -/
+def StAt (ap : List (APrim L)) (ex : St L) (h : Head L) : Prop :=
+  h.pos ≤ ap.length ∧ entryOf (ap.drop h.pos) ex = ⟨h.handlers, h.scopes⟩
+
+theorem annot_at (ap : List (APrim L)) (ex : St L) (hch : Chain (LabSt ap) ap ex) (i : Nat) (e : Prim L) (st : St L)
+    (hi : ap[i]? = some (e, st)) : okStep (LabSt ap) e st (entryOf (ap.drop (i + 1)) ex) := by
+  have hlt : i < ap.length := (List.getElem?_eq_some_iff.1 hi).1
+  have hd : ap.drop i = (e, st) :: ap.drop (i + 1) := by
+    rw [List.drop_eq_getElem_cons hlt]
+    congr 1
+    exact (List.getElem?_eq_some_iff.1 hi).2
+  have := chain_drop (LabSt ap) ex ap i hch
+  rw [hd] at this
+  exact this.1
+
+theorem annot_jump (ap : List (APrim L)) (ex : St L) (hch : Chain (LabSt ap) ap ex) (l : L) (st : St L)
+    (hR : LabSt ap l st) (j : Nat) (hj : lookupLabel (ap.map Prod.fst) l = some j) :
+    StAt ap ex { pos := j, handlers := st.h, scopes := st.s } ∧ StAt ap ex { pos := j + 1, handlers := st.h, scopes := st.s } := by
+  rw [lookupLabel_eq_lastLabel] at hj
+  obtain ⟨hlt, hat, _⟩ := lastLabel_some l _ j hj
+  rw [List.getElem?_map] at hat
+  cases hx : ap[j]? with
+  | none => rw [hx] at hat; simp at hat
+  | some x =>
+    rw [hx] at hat
+    obtain ⟨e, st'⟩ := x
+    simp at hat
+    subst hat
+    have hst : st' = st := hR st' (List.mem_of_getElem? hx)
+    subst hst
+    have hlt' : j < ap.length := (List.getElem?_eq_some_iff.1 hx).1
+    have hd : ap.drop j = (Prim.label l, st') :: ap.drop (j + 1) := by
+      rw [List.drop_eq_getElem_cons hlt']
+      congr 1
+      exact (List.getElem?_eq_some_iff.1 hx).2
+    have hok := annot_at ap ex hch j _ _ hx
+    simp only [okStep] at hok
+    refine ⟨⟨Nat.le_of_lt hlt', ?_⟩, ⟨hlt', ?_⟩⟩
+    · simp only; rw [hd]; rfl
+    · simp only; rw [hok]
+
+/-- one step preserves the annotation invariant and cannot be the scope error -/
+theorem annot_step (ap : List (APrim L)) (ex : St L) (hch : Chain (LabSt ap) ap ex) (h : Head L) (hh : StAt ap ex h) (c : Bool) :
+    step (ap.map Prod.fst) h c ≠ .scopeError ∧
+    ∀ hs, step (ap.map Prod.fst) h c = .next hs → ∀ h' ∈ hs, StAt ap ex h' := by
+  obtain ⟨hle, hst⟩ := hh
+  unfold step
+  cases hp : (ap.map Prod.fst)[h.pos]? with
+  | none => simp
+  | some e =>
+    rw [List.getElem?_map] at hp
+    cases hx : ap[h.pos]? with
+    | none => rw [hx] at hp; simp at hp
+    | some x =>
+      rw [hx] at hp
+      obtain ⟨e', st⟩ := x
+      simp at hp
+      subst hp
+      have hlt : h.pos < ap.length := (List.getElem?_eq_some_iff.1 hx).1
+      have hd : ap.drop h.pos = (e', st) :: ap.drop (h.pos + 1) := by
+        rw [List.drop_eq_getElem_cons hlt]
+        congr 1
+        exact (List.getElem?_eq_some_iff.1 hx).2
+      rw [hd] at hst
+      simp only [entryOf] at hst
+      have hok := annot_at ap ex hch h.pos _ _ hx
+      have hsth : st.h = h.handlers := by rw [hst]
+      have hsts : st.s = h.scopes := by rw [hst]
+      -- the successor at `pos + 1` with new state `nxt`
+      have next_ok : ∀ (hs' : List L) (sc' : List L), entryOf (ap.drop (h.pos + 1)) ex = ⟨hs', sc'⟩ →
+          StAt ap ex { pos := h.pos + 1, handlers := hs', scopes := sc' } :=
+        fun hs' sc' he => ⟨hlt, by simp only; rw [he]⟩
+      have jump_ok : ∀ l, LabSt ap l st → ∀ j, lookupLabel (ap.map Prod.fst) l = some j →
+          StAt ap ex { pos := j, handlers := h.handlers, scopes := h.scopes } ∧
+          StAt ap ex { pos := j + 1, handlers := h.handlers, scopes := h.scopes } := by
+        intro l hR j hj
+        have := annot_jump ap ex hch l st hR j hj
+        rw [hsth, hsts] at this
+        exact this
+      cases e' with
+      | goto l =>
+        simp only [okStep] at hok
+        cases c with
+        | false =>
+          simp
+          have := next_ok st.h st.s (by rw [hok.2])
+          rw [hsth, hsts] at this; exact this
+        | true =>
+          simp only [if_true]
+          cases hl : lookupLabel (ap.map Prod.fst) l with
+          | none => simp
+          | some j =>
+            simp
+            exact (jump_ok l hok.1 j hl).2
+      | fork u ls =>
+        simp only [okStep] at hok
+        simp only
+        cases hl : lookupAll (ap.map Prod.fst) ls with
+        | none => simp
+        | some is =>
+          simp
+          intro i hi
+          -- every looked-up index belongs to some label of `ls`
+          have : ∀ (ls : List L) (is : List Nat), lookupAll (ap.map Prod.fst) ls = some is → ∀ i ∈ is,
+              ∃ l ∈ ls, lookupLabel (ap.map Prod.fst) l = some i := by
+            intro ls
+            induction ls with
+            | nil => intro is h i hi; simp [lookupAll] at h; subst h; simp at hi
+            | cons l ls ih =>
+              intro is h i hi
+              simp only [lookupAll] at h
+              cases h1 : lookupLabel (ap.map Prod.fst) l with
+              | none => rw [h1] at h; simp at h
+              | some k =>
+                cases h2 : lookupAll (ap.map Prod.fst) ls with
+                | none => rw [h1, h2] at h; simp at h
+                | some ks =>
+                  rw [h1, h2] at h
+                  simp at h; subst h
+                  rcases List.mem_cons.1 hi with hi | hi
+                  · subst hi; exact ⟨l, by simp, h1⟩
+                  · obtain ⟨l', hl', hk⟩ := ih ks h2 i hi
+                    exact ⟨l', List.mem_cons_of_mem _ hl', hk⟩
+          obtain ⟨l, hl', hk⟩ := this ls is hl i hi
+          exact (jump_ok l (hok l hl') i hk).1
+      | abort =>
+        simp only [okStep] at hok
+        simp only
+        cases hcat : h.handlers with
+        | nil => simp
+        | cons l rest =>
+          simp only [jumpTo]
+          cases hl : lookupLabel (ap.map Prod.fst) l with
+          | none => simp
+          | some j =>
+            simp
+            exact (jump_ok l (hok l rest (by rw [hsth, hcat])) j hl).2
+      | brk o =>
+        cases o with
+        | none =>
+          simp only [okStep] at hok
+          simp
+          have := next_ok st.h st.s (by rw [hok])
+          rw [hsth, hsts] at this; exact this
+        | some l =>
+          simp only [okStep] at hok
+          simp only [jumpTo]
+          cases hl : lookupLabel (ap.map Prod.fst) l with
+          | none => simp
+          | some j => simp; exact (jump_ok l hok j hl).2
+      | cont o =>
+        cases o with
+        | none =>
+          simp only [okStep] at hok
+          simp
+          have := next_ok st.h st.s (by rw [hok])
+          rw [hsth, hsts] at this; exact this
+        | some l =>
+          simp only [okStep] at hok
+          simp only [jumpTo]
+          cases hl : lookupLabel (ap.map Prod.fst) l with
+          | none => simp
+          | some j => simp; exact (jump_ok l hok j hl).2
+      | catchFail o =>
+        cases o with
+        | some l =>
+          simp only [okStep] at hok
+          simp
+          have := next_ok (l :: st.h) st.s (by rw [hok])
+          rw [hsth, hsts] at this; exact this
+        | none =>
+          simp only [okStep] at hok
+          simp only
+          cases hcat : h.handlers with
+          | nil => simp
+          | cons x rest =>
+            simp
+            have := next_ok rest st.s (by rw [hok x rest (by rw [hsth, hcat])])
+            rw [hsts] at this; exact this
+      | specOp op g rv =>
+        simp only [okStep] at hok
+        cases c with
+        | true =>
+          simp
+          have := next_ok st.h st.s (by rw [hok.1])
+          rw [hsth, hsts] at this; exact this
+        | false =>
+          simp only [Bool.false_eq_true, if_false]
+          cases hcat : h.handlers with
+          | nil => simp
+          | cons l rest =>
+            simp only
+            cases hl : lookupLabel (ap.map Prod.fst) l with
+            | none => simp
+            | some j =>
+              simp
+              have := (jump_ok l (hok.2 l rest (by rw [hsth, hcat])) j hl).1
+              rw [hcat] at this; exact this
+      | beginScope n =>
+        simp only [okStep] at hok
+        have hn : n ∉ h.scopes := by rw [← hsts]; exact hok.1
+        simp [hn]
+        have := next_ok st.h (n :: st.s) (by rw [hok.2])
+        rw [hsth, hsts] at this; exact this
+      | endScope n =>
+        simp only [okStep] at hok
+        simp
+        have := next_ok st.h (st.s.erase n) (by rw [hok])
+        rw [hsth, hsts] at this; exact this
+      | ret => simp
+      | label n =>
+        simp only [okStep] at hok
+        simp
+        have := next_ok st.h st.s (by rw [hok]); rw [hsth, hsts] at this; exact this
+      | merge u =>
+        simp only [okStep] at hok
+        simp
+        have := next_ok st.h st.s (by rw [hok]); rw [hsth, hsts] at this; exact this
+      | waitHeads k =>
+        simp only [okStep] at hok
+        simp
+        have := next_ok st.h st.s (by rw [hok]); rw [hsth, hsts] at this; exact this
+      | assign b =>
+        simp only [okStep] at hok
+        simp
+        have := next_ok st.h st.s (by rw [hok]); rw [hsth, hsts] at this; exact this
+      | other k =>
+        simp only [okStep] at hok
+        simp
+        have := next_ok st.h st.s (by rw [hok]); rw [hsth, hsts] at this; exact this
+      | composite k =>
+        simp only [okStep] at hok
+        simp
+        have := next_ok st.h st.s (by rw [hok]); rw [hsth, hsts] at this; exact this
+
+/-- an annotated program whose annotation starts in `([], [])` never raises the scope error, on any execution -/
+theorem annot_sound (ap : List (APrim L)) (ex : St L) (hch : Chain (LabSt ap) ap ex) (h0 : entryOf ap ex = ⟨[], []⟩)
+    (h : Head L) (hr : Reach (ap.map Prod.fst) h) : StAt ap ex h ∧ ∀ c, step (ap.map Prod.fst) h c ≠ .scopeError := by
+  have inv : StAt ap ex h := by
+    induction hr with
+    | start => exact ⟨Nat.zero_le _, by simpa using h0⟩
+    | step x c hs y _ hstep hy ih => exact (annot_step ap ex hch x ih c).2 hs hstep y hy
+  exact ⟨inv, fun c => (annot_step ap ex hch h inv c).1⟩
+
 end NemoVerif.Closed
